@@ -10,6 +10,8 @@ CONSTANTS
   MaxNoOffer = 0
   MaxTimeouts = 2
   EnvAtQuiet = FALSE
+  GenNoFaults = FALSE
+  GenHold = 0
 SPECIFICATION Spec
 INVARIANTS RetNeverBlocks
 CHECK_DEADLOCK FALSE
